@@ -44,15 +44,18 @@ inductive Value where
   | text (s : List Char)
   | data (bs : List Nat)
   | record (attrs : Attrs) (items : Items)
+  deriving DecidableEq
 /-- `Vec<Attr>`: name and value. -/
 inductive Attrs where
   | nil
   | cons (name : List Char) (value : Value) (rest : Attrs)
+  deriving DecidableEq
 /-- `Vec<Item>`: `Item::ValueItem v` or `Item::Slot k v`. -/
 inductive Items where
   | nil
   | val (v : Value) (rest : Items)
   | slot (k : Value) (v : Value) (rest : Items)
+  deriving DecidableEq
 end
 
 instance : Inhabited Value := ⟨.extant⟩
@@ -174,7 +177,7 @@ inductive Res (α : Type) where
   | ok (a : α)
   | err
   | panic
-  deriving Repr
+  deriving Repr, DecidableEq
 
 def Res.map {α β : Type} (f : α → β) : Res α → Res β
   | .ok a => .ok (f a)
